@@ -30,6 +30,9 @@ class VLoop(asyncio.BaseEventLoop):
         self.set_exception_handler(self._on_exc)
         self.executor_jobs: List[Any] = []
 
+    def world_finished(self) -> bool:
+        return self.world is None or self.world.finished
+
     # -- plumbing BaseEventLoop expects
     def time(self) -> float:
         return self._vtime
@@ -46,7 +49,7 @@ class VLoop(asyncio.BaseEventLoop):
         return task
 
     def _on_exc(self, loop: Any, context: dict) -> None:
-        if self.world is not None:
+        if self.world is not None and not self.world.finished:
             self.world.exc_contexts.append(context)
 
     def add_signal_handler(self, sig: Any, callback: Any, *args: Any) -> None:
@@ -243,7 +246,7 @@ class FakeTransport(transports._FlowControlMixin, transports.Transport):
         if self._closing or self._eof:
             return
         self._eof = True
-        if not self._buffer:
+        if not self._buffer and not self._loop.world_finished():
             self.rec.server_eof_at = self._loop.time()
 
     def close(self) -> None:
@@ -259,6 +262,8 @@ class FakeTransport(transports._FlowControlMixin, transports.Transport):
 
     # ---- internals mirroring selector_events
     def _deliver(self, data: bytes) -> None:
+        if self._loop.world_finished():
+            return
         self.rec.out.extend(data)
         self.rec.out_chunks.append((self._loop.time(), data))
         cl = self.rec.client
@@ -283,7 +288,7 @@ class FakeTransport(transports._FlowControlMixin, transports.Transport):
             self._protocol.connection_lost(exc)
         finally:
             self._sock.close()
-            if self.rec.closed_at is None:
+            if self.rec.closed_at is None and not self._loop.world_finished():
                 self.rec.closed_at = self._loop.time()
             server = self._server
             if server is not None:
@@ -461,6 +466,8 @@ class AioWorld(WorldBase):
         self.serve_task = self.loop.create_task(serve())
 
         def done(task: asyncio.Task) -> None:
+            if self.finished:
+                return
             self.serve_done_at = self.now()
             if task.cancelled():
                 self.serve_result = "cancelled"
@@ -549,6 +556,8 @@ class AioWorld(WorldBase):
             return ev[1] not in self.conns
         if kind == "shutdown":
             return self.shutdown_event is not None and not self.shutdown_event.is_set()
+        if kind == "terminate":  # conn-level stand-in for "shutdown has begun"
+            return self.context is not None and not self.context.terminated.is_set()
         if kind == "wait_closed":  # pseudo event: enabled once the server closed connection k
             rec = self.conns.get(ev[1])
             return rec is not None and rec.closed_at is not None
@@ -596,6 +605,9 @@ class AioWorld(WorldBase):
         elif kind == "shutdown":
             self.shutdown_at = self.now()
             self.shutdown_event.set()
+        elif kind == "terminate":
+            self.shutdown_at = self.now()
+            self.context.terminated._event.set()
         elif kind in ("wait_closed", "wait_idle"):
             pass
         elif kind == "call":
@@ -635,6 +647,7 @@ class AioWorld(WorldBase):
 
     def finish(self) -> None:
         """Record end-of-execution facts before anything is torn down."""
+        self.finished = True
         self.sigs.add(self.signature())
         self.drain_instances()
         for k, rec in self.conns.items():
